@@ -499,4 +499,173 @@ theorem multiNs_distinct (ps : List PropV) (target : Name) (others : List Name)
   subst hb
   exact ht a ha
 
+/-! ### `str.strip('/')` is idempotent (add_namespace strips a name the namespace provider has already stripped) -/
+
+theorem dropWhile_head_false {α} (p : α → Bool) : ∀ (l : List α) (x : α) (t : List α),
+    l.dropWhile p = x :: t → p x = false
+  | [], _, _, h => by simp at h
+  | a :: l, x, t, h => by
+    rw [List.dropWhile_cons] at h
+    by_cases ha : p a = true
+    · rw [if_pos ha] at h; exact dropWhile_head_false p l x t h
+    · rw [if_neg ha] at h; cases h; simpa using ha
+
+theorem dropWhile_of_head_false {α} (p : α → Bool) (x : α) (t : List α) (h : p x = false) :
+    (x :: t).dropWhile p = x :: t := by
+  rw [List.dropWhile_cons]; simp [h]
+
+theorem dropWhile_append_last_false {α} (p : α → Bool) (x : α) (h : p x = false) :
+    ∀ (a : List α), (a ++ [x]).dropWhile p = a.dropWhile p ++ [x]
+  | [] => by simp [h]
+  | y :: a => by
+    rw [List.cons_append, List.dropWhile_cons, List.dropWhile_cons]
+    by_cases hy : p y = true
+    · rw [if_pos hy, if_pos hy]; exact dropWhile_append_last_false p x h a
+    · rw [if_neg hy, if_neg hy]; rfl
+
+/-- strip trailing elements satisfying `p` -/
+def rstrip {α} (p : α → Bool) (l : List α) : List α := ((l.reverse).dropWhile p).reverse
+
+theorem rstrip_idem {α} (p : α → Bool) (l : List α) : rstrip p (rstrip p l) = rstrip p l := by
+  unfold rstrip
+  rw [List.reverse_reverse]
+  cases h : l.reverse.dropWhile p with
+  | nil => rfl
+  | cons x t =>
+    have hx := dropWhile_head_false p _ x t h
+    rw [dropWhile_of_head_false p x t hx]
+
+theorem rstrip_cons_head {α} (p : α → Bool) (x : α) (t : List α) (h : p x = false) :
+    ∃ t', rstrip p (x :: t) = x :: t' := by
+  unfold rstrip
+  rw [List.reverse_cons, dropWhile_append_last_false p x h, List.reverse_append]
+  exact ⟨_, rfl⟩
+
+theorem stripSlashes_eq (n : Name) : stripSlashes n = rstrip (· == '/') (n.dropWhile (· == '/')) := rfl
+
+theorem stripSlashes_idem (n : Name) : stripSlashes (stripSlashes n) = stripSlashes n := by
+  rw [stripSlashes_eq, stripSlashes_eq]
+  cases h : n.dropWhile (· == '/') with
+  | nil => rfl
+  | cons x t =>
+    have hx := dropWhile_head_false _ _ x t h
+    obtain ⟨t', ht'⟩ := rstrip_cons_head (· == '/') x t hx
+    rw [ht', dropWhile_of_head_false _ x t' hx, ← ht', rstrip_idem]
+
+/-! ### sequencing a first (atomic) write with a rest that undoes it when it fails -/
+
+theorem atomicAt_bind_write {α β} {m : M α} {f : α → M β} {s : State} (hm : AtomicAt m s)
+    (hf : ∀ s1 a, m s = (s1, .ok a) → ∀ e, (f a s1).2 = .error e → (f a s1).1 = s) :
+    AtomicAt (m >>= f) s := by
+  intro e he
+  rw [bind_apply] at he ⊢
+  have hm' := hm
+  unfold AtomicAt at hm'
+  revert he hf hm'
+  cases hms : m s with
+  | mk s1 r =>
+    intro hf he hm'
+    cases r with
+    | error e' => exact hm' e' rfl
+    | ok a => exact hf s1 a rfl e he
+
+theorem addNamespace_cases (ns : Name) (s : State) (hstrip : stripSlashes ns = ns) :
+    (∃ e, addNamespace ns s = (s, .error e)) ∨
+    addNamespace ns s = (({ s with nss := s.nss ++ [{ name := ns }] } : State), Except.ok ()) := by
+  unfold addNamespace
+  simp only [hstrip]
+  rw [bind_apply]
+  simp only [getS]
+  by_cases h1 : (isInterop ns && s.nss.any (fun r => isInterop r.name)) = true
+  · left; rw [if_pos h1]; exact ⟨_, rfl⟩
+  · rw [if_neg h1]
+    by_cases h2 : (findNs s ns).isSome = true
+    · left; rw [if_pos h2]; exact ⟨_, rfl⟩
+    · right; rw [if_neg h2]; rfl
+
+theorem filter_append_new (l : List NsRec) (ns : Name) (h : l.find? (fun r => nameEq r.name ns) = none) :
+    (l ++ [({ name := ns } : NsRec)]).filter (fun x => !nameEq x.name ns) = l := by
+  rw [List.filter_append]
+  have h1 : l.filter (fun x => !nameEq x.name ns) = l := by
+    rw [List.filter_eq_self]
+    intro a ha
+    have := List.find?_eq_none.mp h a ha
+    simpa using this
+  have h2 : ([{ name := ns }] : List NsRec).filter (fun x => !nameEq x.name ns) = [] := by
+    simp [nameEq]
+  rw [h1, h2, List.append_nil]
+
+theorem findNs_append_some (s : State) (ns : Name) (r : NsRec) (extra : List NsRec)
+    (h : findNs s ns = some r) : findNs { s with nss := s.nss ++ extra } ns = some r := by
+  unfold findNs at h ⊢
+  simp only
+  rw [List.find?_append, h]
+  rfl
+
+theorem removeNamespace_cases (ns0 : Name) (s : State) :
+    (∃ e, removeNamespace ns0 s = (s, .error e)) ∨
+    (∃ rt, findNs s (stripSlashes ns0) = some rt ∧ rt.insts.isEmpty = true ∧
+      removeNamespace ns0 s =
+        (({ s with nss := s.nss.filter (fun x => !nameEq x.name (stripSlashes ns0)) } : State), Except.ok ())) := by
+  unfold removeNamespace
+  rw [bind_apply]
+  simp only [getS]
+  cases hf : findNs s (stripSlashes ns0) with
+  | none => left; exact ⟨_, rfl⟩
+  | some rt =>
+    simp only
+    by_cases h1 : isInterop (stripSlashes ns0) = true
+    · left; rw [if_pos h1]; exact ⟨_, rfl⟩
+    · rw [if_neg h1]
+      by_cases h2 : (!(rt.classes.isEmpty && rt.quals.isEmpty && rt.insts.isEmpty)) = true
+      · left; rw [if_pos h2]; exact ⟨_, rfl⟩
+      · right
+        rw [if_neg h2]
+        refine ⟨rt, rfl, ?_, rfl⟩
+        simp only [Bool.not_eq_true, Bool.not_eq_false', Bool.and_eq_true] at h2
+        exact h2.2
+
+theorem findNs_filter_other (s : State) (ns t : Name) (r : NsRec) (h : findNs s ns = some r)
+    (hne : lower ns ≠ lower t) :
+    findNs { s with nss := s.nss.filter (fun x => !nameEq x.name t) } ns = some r := by
+  unfold findNs at h ⊢
+  simp only
+  revert h
+  generalize s.nss = l
+  induction l with
+  | nil => intro h; cases h
+  | cons x xs ih =>
+    intro h
+    rw [List.find?_cons] at h
+    by_cases hx : nameEq x.name ns = true
+    · rw [hx] at h
+      simp only at h
+      cases h
+      have hk : (!nameEq r.name t) = true := by
+        cases hc : nameEq r.name t with
+        | false => rfl
+        | true =>
+          exfalso; apply hne
+          rw [nameEq_iff] at hc hx
+          rw [← hx, hc]
+      rw [List.filter_cons, if_pos hk, List.find?_cons, hx]
+    · have hx' : nameEq x.name ns = false := by simpa using hx
+      rw [hx'] at h
+      simp only at h
+      rw [List.filter_cons]
+      by_cases hk : (!nameEq x.name t) = true
+      · rw [if_pos hk, List.find?_cons, hx']; exact ih h
+      · rw [if_neg hk]; exact ih h
+
+/-! ### monad laws used for the MOF item fold -/
+
+theorem bind_assoc' {α β γ} (m : M α) (f : α → M β) (g : β → M γ) :
+    (m >>= f) >>= g = m >>= fun a => f a >>= g := by
+  funext s
+  rw [bind_apply, bind_apply, bind_apply]
+  cases m s with
+  | mk s' r => cases r <;> rfl
+
+theorem pure_bind' {α β} (a : α) (f : α → M β) : (pure a : M α) >>= f = f a := rfl
+
 end Pywbem.Model.Atomic
